@@ -238,19 +238,116 @@ Proof.
   rewrite Hrun0. reflexivity.
 Qed.
 
+(* ------------------------------------------------------------------ attributes: by name *)
+Definition att_name (a : attr) : text := snd (fst a).
+
+Lemma lookup_att_in nm atts v : lookup_att [] nm atts = Some v -> exists a, In a atts /\ fst (fst a) = [] /\ att_name a = nm /\ snd a = v.
+Proof.
+  induction atts as [|[[x y] z] r IH]; [discriminate|]. cbn [lookup_att].
+  destruct (text_eqb x [] && text_eqb y nm) eqn:E.
+  - intros H. injection H as <-. apply andb_prop in E. destruct E as [E1 E2]. apply text_eqb_true_eq in E1. apply text_eqb_true_eq in E2.
+    exists (x, y, z). repeat split; auto. left. reflexivity.
+  - intros H. destruct (IH H) as (a & Ha & Hr). exists a. split; [right; exact Ha|exact Hr].
+Qed.
+
+Lemma text_mem_in x l : text_mem x l = true <-> In x l.
+Proof.
+  induction l as [|y r IH]; cbn; [split; [discriminate|tauto]|]. rewrite orb_true_iff, IH. split.
+  - intros [H|H]; [left; symmetry; apply text_eqb_true_eq; exact H|right; exact H].
+  - intros [->|H]; [left; apply text_eqb_same|right; exact H].
+Qed.
+
+(** with distinct names, looking an attribute up finds exactly that attribute *)
+Lemma lookup_att_nodup atts : nodup_text (map att_name atts) = true ->
+  (forall a, In a atts -> fst (fst a) = []) ->
+  forall a, In a atts -> lookup_att [] (att_name a) atts = Some (snd a).
+Proof.
+  induction atts as [|[[x y] z] r IH]; intros Hnd Hns a Ha; [destruct Ha|].
+  cbn [map nodup_text att_name fst snd] in Hnd. apply andb_prop in Hnd. destruct Hnd as [Hn1 Hn2].
+  cbn [lookup_att]. pose proof (Hns _ (or_introl eq_refl)) as Hx. cbn in Hx. subst x. cbn [text_eqb andb].
+  destruct Ha as [<-|Ha].
+  - cbn [att_name fst snd]. rewrite text_eqb_same. reflexivity.
+  - destruct (text_eqb y (att_name a)) eqn:E.
+    + exfalso. apply text_eqb_true_eq in E. apply negb_true_iff in Hn1.
+      assert (text_mem y (map att_name r) = true) by (apply text_mem_in; rewrite E; apply in_map; exact Ha). congruence.
+    + apply IH; [exact Hn2|intros b Hb; apply Hns; right; exact Hb|exact Ha].
+Qed.
+
+Lemma att_count atts nm : nodup_text (map att_name atts) = true -> (forall a, In a atts -> fst (fst a) = []) ->
+  count_text nm (map att_name atts) = match lookup_att [] nm atts with Some _ => 1 | None => 0 end.
+Proof.
+  induction atts as [|[[x y] z] r IH]; intros Hnd Hns; [reflexivity|].
+  cbn [map nodup_text att_name fst snd] in Hnd. apply andb_prop in Hnd. destruct Hnd as [Hn1 Hn2].
+  pose proof (Hns _ (or_introl eq_refl)) as Hx. cbn in Hx. subst x.
+  cbn [map count_text lookup_att att_name fst snd text_eqb andb].
+  rewrite IH by (try exact Hn2; intros b Hb; apply Hns; right; exact Hb).
+  destruct (text_eqb y nm) eqn:E; [|reflexivity].
+  apply text_eqb_true_eq in E. subst y.
+  destruct (lookup_att [] nm r) as [v|] eqn:El; [|reflexivity].
+  exfalso. destruct (lookup_att_in _ _ _ El) as (a & Ha & _ & Hn & _). apply negb_true_iff in Hn1.
+  assert (text_mem nm (map att_name r) = true) by (apply text_mem_in; rewrite <- Hn; apply in_map; exact Ha). congruence.
+Qed.
+
+Lemma find_fld_in nm fs f : find_fld nm fs = Some f -> In f fs /\ fl_name f = nm.
+Proof.
+  induction fs as [|g r IH]; [discriminate|]. cbn. destruct (text_eqb (fl_name g) nm) eqn:E.
+  - intros H. injection H as <-. split; [left; reflexivity|apply text_eqb_true_eq; exact E].
+  - intros H. destruct (IH H). split; [right|]; assumption.
+Qed.
+Lemma find_fld_nodup fs : NoDup (map fl_name fs) -> forall f, In f fs -> find_fld (fl_name f) fs = Some f.
+Proof.
+  induction fs as [|g r IH]; intros Hnd f Hf; [destruct Hf|]. inversion Hnd as [|? ? Hn Hnd']; subst. cbn.
+  destruct Hf as [->|Hf]; [rewrite text_eqb_same; reflexivity|].
+  destruct (text_eqb (fl_name g) (fl_name f)) eqn:E; [|apply IH; assumption].
+  exfalso. apply text_eqb_true_eq in E. apply Hn. rewrite E. apply in_map. exact Hf.
+Qed.
+
+Lemma count_text_rev k l : count_text k (rev l) = count_text k l.
+Proof. induction l as [|x r IH]; [reflexivity|]. cbn [rev count_text]. rewrite count_text_app, IH. cbn [count_text]. lia. Qed.
+
+Lemma forallb_split {A} (p q : A -> bool) l :
+  forallb p l = forallb p (filter q l) && forallb p (filter (fun x => negb (q x)) l).
+Proof.
+  induction l as [|x r IH]; [reflexivity|]. cbn [forallb filter]. rewrite IH. destruct (q x); cbn [negb forallb]; btauto.
+Qed.
+Lemma forallb_map {A B} (g : A -> B) (p : B -> bool) l : forallb p (map g l) = forallb (fun x => p (g x)) l.
+Proof. induction l as [|x r IH]; [reflexivity|]. cbn. rewrite IH. reflexivity. Qed.
+Lemma forallb_and {A} (p q : A -> bool) l : forallb (fun x => p x && q x) l = forallb p l && forallb q l.
+Proof. induction l as [|x r IH]; [reflexivity|]. cbn [forallb]. rewrite IH. btauto. Qed.
+
+(** iterating over the attributes present = iterating over the attribute members and looking
+    each one up, when attribute names are distinct and every attribute is a member *)
+Lemma atts_reindex (P : fld -> text -> bool) (AF : list fld) (atts : list attr) :
+  NoDup (map fl_name AF) ->
+  nodup_text (map att_name atts) = true ->
+  (forall a, In a atts -> fst (fst a) = [] /\ exists f, In f AF /\ fl_name f = att_name a) ->
+  forallb (fun a => match find_fld (att_name a) AF with Some f => P f (snd a) | None => true end) atts
+  = forallb (fun f => match lookup_att [] (fl_name f) atts with Some v => P f v | None => true end) AF.
+Proof.
+  intros Hnd Hna Hat. apply Bool.eq_iff_eq_true. rewrite !forallb_forall. split.
+  - intros H f Hf. destruct (lookup_att [] (fl_name f) atts) as [v|] eqn:El; [|reflexivity].
+    destruct (lookup_att_in _ _ _ El) as (a & Ha & _ & Hn & Hv). specialize (H a Ha).
+    rewrite Hn, (find_fld_nodup AF Hnd f Hf), Hv in H. exact H.
+  - intros H a Ha. destruct (Hat a Ha) as (Hns & f & Hf & Hn). rewrite <- Hn, (find_fld_nodup AF Hnd f Hf).
+    specialize (H f Hf). rewrite Hn in H.
+    rewrite (lookup_att_nodup atts Hna (fun b Hb => proj1 (Hat b Hb)) a Ha) in H. exact H.
+Qed.
+
 Lemma fld_attr_facts0 n f : fld_ok n f = true -> is_elem f = false ->
   (exists st, fl_ty f = DLeaf st /\ wf_stype st = true)
-  /\ eff_required (adecl_of f) = (0 <? fl_min f) /\ 0 <= fl_min f /\ fl_max f = Fin 1.
+  /\ eff_required (adecl_of f) = (0 <? fl_min f) /\ 0 <= fl_min f /\ fl_max f = Fin 1 /\ fl_min f <= 1.
 Proof.
   intros Hok He. unfold fld_ok in Hok. unfold is_elem in He. destruct (fl_kind f) eqn:Ek; [discriminate|]. split_all.
   destruct (fl_ty f) as [st| |] eqn:Et; try discriminate. split; [exists st; split; [reflexivity|assumption]|].
-  split; [|split; [lia|]].
+  assert (Hmax : fl_max f = Fin 1).
+  { match goal with H1 : ext_leb (Fin 1) (fl_max f) = true, H2 : ext_leb (fl_max f) (Fin 1) = true |- _ =>
+      destruct (fl_max f) as [|z|]; cbn in H1, H2; try discriminate; f_equal; lia end. }
+  split; [|split; [lia|split; [exact Hmax|]]].
+  2: { match goal with H : ext_leb (Fin (fl_min f)) (fl_max f) = true |- _ => rewrite Hmax in H; cbn in H; lia end. }
   - unfold eff_required, adecl_of, attr_use. cbn [a_required].
     destruct (fl_use f) as [b|].
     + match goal with H : Bool.eqb b (0 <? fl_min f) = true |- _ => apply eqb_prop in H; rewrite H end. reflexivity.
     + destruct (fl_min f >? 0) eqn:E; destruct (0 <? fl_min f) eqn:E2; try reflexivity; lia.
-  - match goal with H1 : ext_leb (Fin 1) (fl_max f) = true, H2 : ext_leb (fl_max f) (Fin 1) = true |- _ =>
-      destruct (fl_max f) as [|z|]; cbn in H1, H2; try discriminate; f_equal; lia end.
 Qed.
 
 Section Agree.
@@ -311,7 +408,7 @@ Section Agree.
           unfold attrs_of in Hdd. apply in_map_iff in Hdd. destruct Hdd as (f & <- & Hf).
           apply filter_In in Hf. destruct Hf as [Hf Hel]. apply negb_true_iff in Hel. apply in_map_iff in Hf. destruct Hf as (q & <- & Hq).
           destruct (L_flds_known U Hwf L (chain_known U _ _ _ C1) q Hq) as (_ & _ & _ & Hok).
-          destruct (fld_attr_facts0 _ (snd q) Hok Hel) as (_ & Hr & Hm0 & _). rewrite Hr.
+          destruct (fld_attr_facts0 _ (snd q) Hok Hel) as (_ & Hr & Hm0 & _ & _). rewrite Hr.
           destruct (0 <? fl_min (snd q)) eqn:E; [|reflexivity]. exfalso.
           assert (existsb (fun p : text * fld => negb (is_elem (snd p)) && (0 <? fl_min (snd p))) (L_flds L) = true).
           { apply existsb_exists. exists q. split; [exact Hq|]. rewrite Hel, E. reflexivity. }
@@ -395,6 +492,189 @@ Section Agree.
     specialize (IH (an :: freq) Hr). destruct (forallb (att_ok fields) r).
     - rewrite IH. cbn [map rev fst snd]. rewrite <- app_assoc. reflexivity.
     - exact IH.
+  Qed.
+
+
+  (* ---------------------------------------------------------------- a class element *)
+  Lemma valid_elem_complex2 m' q nillable dflt ns name atts txt kids ps ats :
+    forallb (fun a => negb (is_xsi a)) atts = true -> resolve_simple S q = None -> eff_content m' S q = Some (ps, ats) ->
+    valid_elem pat olex (Datatypes.S m') S q nillable dflt (XElt ns name atts txt kids)
+    = attrs_ok pat olex S ats atts && (all_xws txt && match_seq (velem_m pat olex S m') ps (filter is_elt kids)).
+  Proof.
+    intros Hp Hr He. cbn -[resolve_simple eff_content attrs_ok match_seq all_xws].
+    assert (H1 : forallb (fun a => negb (is_xsi a) || is_xsi_nil a) atts = true).
+    { apply forallb_forall. intros a Ha. rewrite forallb_forall in Hp. rewrite (Hp a Ha). reflexivity. }
+    rewrite H1, (lookup_nil_plain atts Hp), Hr, He. cbn [negb is_some andb]. reflexivity.
+  Qed.
+
+  Lemma filter_all_elts kids : forallb is_elt kids = true -> filter is_elt kids = kids.
+  Proof. induction kids as [|k r IH]; [reflexivity|]. cbn. intros H. apply andb_prop in H. destruct H as [-> H]. rewrite (IH H). reflexivity. Qed.
+
+  Definition child_chk (k : nat) (f : fld) (c0 : xnode) : bool :=
+    ddoc U LA k (fl_ty f) (fl_nillable f) (default_text f) c0.
+
+  Lemma agree_class k m' c cl L nillable dflt ns name atts txt kids :
+    (k + length U < m')%nat ->
+    get_klass U c = Some cl -> chain_fuel (Datatypes.S c) U c = Some L ->
+    (forall t' nil' d' e', ty_known U t' -> ddoc U LA k t' nil' d' e' = true ->
+        valid_elem pat olex m' S (type_qn U t') nil' d' e' = is_ok (soft U ord k t' nil' e')) ->
+    xsi_ok atts = true -> is_nil_att atts = false ->
+    all_xws txt = true -> forallb is_elt kids = true ->
+    items_doc (child_chk k) L kids = true ->
+    groups_single L kids = true ->
+    atts_doc LA (map snd (L_flds L)) (plain_atts atts) = true ->
+    no_clash (map snd (L_flds L)) atts kids = true ->
+    valid_elem pat olex (Datatypes.S m') S (klass_qn U c) nillable dflt (XElt ns name atts txt kids)
+    = is_ok (soft U ord (Datatypes.S k) (DRef c) nillable (XElt ns name atts txt kids)).
+  Proof.
+    intros Hm Hc HL IH Hx Hnil Hws Helts Hdoc Hgs Hatts Hclash.
+    set (F0 := map snd (L_flds L)) in *.
+    destruct (not_nil_plain atts Hx Hnil) as [Hlk Hplain]. rewrite (all_plain_filter atts Hplain) in Hatts.
+    (* facts about the universe *)
+    destruct (chain_exists U Hwf c cl Hc) as [L' HL'].
+    destruct (HL' (Datatypes.S c) ltac:(lia)) as (C0 & C2 & _). rewrite HL in C0. injection C0 as <-.
+    destruct (HL' m' ltac:(pose proof (nth_error_Some U c); unfold get_klass in Hc; rewrite Hc in *; assert (c < length U)%nat by (apply H; discriminate); lia)) as (C1 & _ & _).
+    pose proof (chain_known U _ _ _ HL) as Hkn.
+    pose proof (wf_klass U c cl Hwf Hc) as Hk. unfold klass_ok in Hk. split_all.
+    assert (Hnd : NoDup (map (fun p => fl_name (snd p)) (L_flds L))).
+    { apply nodup_text_NoDup. match goal with H : match flat U c with _ => _ end = true |- _ => unfold flat in H; rewrite C2 in H; exact H end. }
+    assert (Hnd0 : NoDup (map fl_name F0)) by (unfold F0; rewrite map_map; exact Hnd).
+    assert (Hgw : forall p, In p L -> match snd p with IGroup _ ms => forallb is_elem ms = true | IOne _ => True end).
+    { intros p Hp. pose proof (item_known_wf U Hwf _ (Hkn p Hp)) as Hw. destruct (snd p) as [f|g ms]; [exact I|].
+      destruct Hw as [_ Hms]. apply forallb_forall. intros f Hf. exact (proj1 (proj2 (proj2 (Hms f Hf)))). }
+    assert (Hgwf : forall p, In p L -> group_wf (snd p)).
+    { intros p Hp. pose proof (item_known_wf U Hwf _ (Hkn p Hp)) as Hw. destruct (snd p) as [f|g ms]; [exact I|].
+      destruct Hw as [Hne Hms]. split; [exact Hne|]. intros f Hf. destruct (Hms f Hf) as (Q1 & Q2 & _). split; [exact Q1|].
+      pose proof (fld_ok_max _ f Q2) as Hmx. destruct (fl_max f) as [|z|]; cbn in *; try discriminate; try reflexivity. lia. }
+    set (E := efields L).
+    assert (HE : forall p, In p E -> In (snd p) F0 /\ is_elem (snd p) = true).
+    { intros p Hp. unfold E, efields in Hp. apply filter_In in Hp. destruct Hp as [Hp He]. split; [|exact He]. unfold F0. apply in_map. exact Hp. }
+    assert (HEfind : forall p, In p E -> find_fld (fl_name (snd p)) F0 = Some (snd p)).
+    { intros p Hp. apply find_fld_nodup; [exact Hnd0|exact (proj1 (HE p Hp))]. }
+    assert (HEnd : NoDup (map (fun p => fl_name (snd p)) E)).
+    { unfold E, efields. clear -Hnd. induction (L_flds L) as [|q r IHr]; [constructor|]. cbn [map filter] in *. inversion Hnd as [|? ? Hn Hnd']; subst.
+      destruct (is_elem (snd q)); [|apply IHr; exact Hnd']. cbn [map]. constructor; [|apply IHr; exact Hnd'].
+      intros Hin. apply Hn. apply in_map_iff in Hin. destruct Hin as (x & Hx1 & Hx2). apply filter_In in Hx2. apply in_map_iff. exists x. split; [exact Hx1|exact (proj1 Hx2)]. }
+    rewrite (items_doc_flat (child_chk k) L Hgw) in Hdoc. fold E in Hdoc.
+    pose proof (fdoc_shape _ _ _ Hdoc) as Hshape.
+    (* ---- the schema side *)
+    destruct (rs_klass S U Hres c cl Hc) as (dd & Hd1 & Hd2 & Hd3).
+    rewrite (valid_elem_complex2 m' (klass_qn U c) nillable dflt ns name atts txt kids (L_parts U L) (attrs_of F0) Hplain).
+    2: { apply (resolve_complex S (klass_qn U c) (cdef_of U cl)); rewrite (klass_qn_get U c cl Hc); [cbn [fst]; apply negb_true_iff; assumption|exact Hd3]. }
+    2: { unfold F0. apply (eff_content_klass U S Hwf Hres m' c L C1). }
+    rewrite Hws, (filter_all_elts kids Helts). cbn [andb].
+    rewrite (match_items U _ L kids Hgwf Hgs), (items_match_flat U _ L Hgw). fold E.
+    rewrite (fdoc_forallb _ F0 E kids HEfind Hshape), (focc_counts U E kids HEnd Hshape).
+    (* ---- the soft side *)
+    cbn [soft]. rewrite Hnil. unfold flat. rewrite C2. fold F0.
+    assert (Hkp : kids_plain F0 kids).
+    { intros kid Hkid. rewrite forallb_forall in Helts. pose proof (Helts kid Hkid) as Hel.
+      destruct kid as [kns kname catts ktxt kkids|]; [|discriminate].
+      destruct (shape_members E kids Hshape _ Hkid) as (p & Hp & He). pose proof (elt_is_name _ _ _ He) as Hn. cbn [node_name] in Hn. subst kname.
+      split; [exists (snd p); split; [exact (HEfind p Hp)|exact (proj2 (HE p Hp))]|].
+      unfold no_clash in Hclash. apply andb_prop in Hclash. destruct Hclash as [_ Hcl]. rewrite forallb_forall in Hcl. exact (Hcl _ Hkid). }
+    pose proof (soft_kids_spec (fun f => soft U ord k (fl_ty f) (fl_nillable f)) F0 kids [] Hkp) as HK.
+    (* children: the two per-child checks coincide by the induction hypothesis *)
+    assert (Hkids : forallb (fun kid => match find_fld (node_name kid) F0 with
+                                        | Some f => velem_m pat olex S m' (fld_edecl U f) kid | None => true end) kids
+                    = forallb (kid_ok (fun f => soft U ord k (fl_ty f) (fl_nillable f)) F0) kids).
+    { rewrite (fdoc_forallb (child_chk k) F0 E kids HEfind Hshape) in Hdoc. rewrite forallb_forall in Hdoc.
+      apply forallb_ext_in'. intros kid Hkid. specialize (Hdoc kid Hkid). unfold kid_ok.
+      destruct (find_fld (node_name kid) F0) as [f|] eqn:Ef; [|reflexivity].
+      rewrite velem_fld. unfold child_chk in Hdoc. rewrite default_text_dtext in Hdoc. apply IH; [|exact Hdoc].
+      destruct (find_fld_in _ _ _ Ef) as [Hin _]. unfold F0 in Hin. apply in_map_iff in Hin. destruct Hin as (q & <- & Hq).
+      destruct (L_flds_known U Hwf L Hkn q Hq) as (cl' & Hcl' & Hin' & Hok).
+      pose proof (fld_ok_ty _ _ Hok) as Hty. unfold ty_known. destruct (fl_ty (snd q)) as [st|c'|aq iname el] eqn:Et.
+      - split; [|exact Hty]. unfold tys_of. apply in_flat_map. exists cl'. split; [exact Hcl'|]. apply in_flat_map. exists (snd q). split; [exact Hin'|].
+        rewrite Et. left. reflexivity.
+      - cbn in Hty. apply Nat.ltb_lt. exact Hty.
+      - split; [|exact Hty]. unfold tys_of. apply in_flat_map. exists cl'. split; [exact Hcl'|]. apply in_flat_map. exists (snd q). split; [exact Hin'|].
+        rewrite Et. left. reflexivity. }
+    rewrite Hkids.
+    destruct (forallb (kid_ok (fun f => soft U ord k (fl_ty f) (fl_nillable f)) F0) kids) eqn:EK.
+    2: { rewrite andb_false_r. cbn [andb]. rewrite is_ok_bind.
+         destruct (soft_kids ord _ F0 kids []) as [fr| |]; [discriminate HK|reflexivity|reflexivity]. }
+    rewrite HK. cbn [bind]. cbn [andb]. rewrite app_nil_r.
+    (* attributes *)
+    unfold atts_doc in Hatts. apply andb_prop in Hatts. destruct Hatts as [Hat1 Hat2]. rewrite forallb_forall in Hat1.
+    assert (Hatt : forall a, In a atts -> fst (fst a) = [] /\ exists f, find_fld (snd (fst a)) F0 = Some f /\ is_elem f = false
+                                           /\ exists st, fl_ty f = DLeaf st /\ LA st (fl_nillable f) None (Some (snd a)) = true).
+    { intros [[ans an] av] Ha. specialize (Hat1 _ Ha). cbn beta iota in Hat1. apply andb_prop in Hat1. destruct Hat1 as [A1 A2].
+      destruct ans; [|discriminate]. split; [reflexivity|]. cbn [fst snd]. destruct (find_fld an F0) as [f|]; [|discriminate].
+      apply andb_prop in A2. destruct A2 as [A2 A3]. apply negb_true_iff in A2. exists f. repeat split; try assumption.
+      destruct (fl_ty f) as [st| |]; try discriminate. exists st. split; [reflexivity|exact A3]. }
+    pose proof (soft_atts_spec F0 atts (rev (map node_name kids))
+                 (fun a Ha => let '(conj H1 (ex_intro _ f (conj H2 (conj H3 _)))) := Hatt a Ha in conj H1 (ex_intro _ f (conj H2 H3)))) as HA.
+    set (AF := filter (fun f => negb (is_elem f)) F0).
+    assert (HAF : forall f, In f AF -> In f F0 /\ is_elem f = false
+                     /\ exists q, In q (L_flds L) /\ snd q = f /\ fld_ok (length U) f = true).
+    { intros f Hf. unfold AF in Hf. apply filter_In in Hf. destruct Hf as [Hf He]. apply negb_true_iff in He.
+      split; [exact Hf|]. split; [exact He|]. unfold F0 in Hf. apply in_map_iff in Hf. destruct Hf as (q & <- & Hq).
+      destruct (L_flds_known U Hwf L Hkn q Hq) as (_ & _ & _ & Hok). exists q. auto. }
+    assert (HAFnd : NoDup (map fl_name AF)).
+    { unfold AF. clear -Hnd0. induction F0 as [|g r IHr]; [constructor|]. cbn [map filter] in *. inversion Hnd0 as [|? ? Hn Hnd']; subst.
+      destruct (negb (is_elem g)); [|apply IHr; exact Hnd']. cbn [map]. constructor; [|apply IHr; exact Hnd'].
+      intros Hin. apply Hn. apply in_map_iff in Hin. destruct Hin as (x & Hx1 & Hx2). apply filter_In in Hx2. apply in_map_iff. exists x. split; [exact Hx1|exact (proj1 Hx2)]. }
+    set (occA := fun f => match lookup_att [] (fl_name f) atts with Some _ => true | None => negb (0 <? fl_min f) end).
+    assert (Hattns : forall a, In a atts -> fst (fst a) = []) by (intros a Ha; exact (proj1 (Hatt a Ha))).
+    assert (Hnda : nodup_text (map att_name atts) = true) by exact Hat2.
+    (* no attribute is named like an element member, no child like an attribute member *)
+    assert (Hlk_elem : forall p, In p E -> lookup_att [] (fl_name (snd p)) atts = None).
+    { intros p Hp. destruct (lookup_att [] (fl_name (snd p)) atts) as [v|] eqn:El; [|reflexivity]. exfalso.
+      destruct (lookup_att_in _ _ _ El) as (a & Ha & _ & Hn & _). destruct (Hatt a Ha) as (_ & f & Hf & He & _).
+      unfold att_name in Hn. rewrite Hn, (HEfind p Hp) in Hf. injection Hf as <-. rewrite (proj2 (HE p Hp)) in He. discriminate. }
+    assert (Hcnt_attr : forall f, In f AF -> count_text (fl_name f) (map node_name kids) = 0).
+    { intros f Hf. apply count_names_other. intros kid Hkid Heq. destruct (shape_members E kids Hshape _ Hkid) as (p & Hp & He).
+      rewrite (elt_is_name _ _ _ He) in Heq. destruct (HAF f Hf) as (Hf0 & Hfe & _).
+      pose proof (find_fld_nodup F0 Hnd0 f Hf0) as Hff. rewrite <- Heq, (HEfind p Hp) in Hff. injection Hff as <-.
+      rewrite (proj2 (HE p Hp)) in Hfe. discriminate. }
+    (* (i) the attribute uses of the schema = the attribute checks of soft validation + their occurrence *)
+    assert (Hattrs : attrs_ok pat olex S (attrs_of F0) atts = forallb (att_ok F0) atts && forallb occA AF).
+    { unfold attrs_ok.
+      assert (X1 : forallb (fun a : attr => let '(ans, n, _) := a in
+                      is_xsi a || (match ans with [] => true | _ => false end && existsb (fun d => text_eqb (a_name d) n) (attrs_of F0))) atts = true).
+      { apply forallb_forall. intros [[ans an] av] Ha. destruct (Hatt _ Ha) as (Hns & f & Hf & He & _). cbn [fst snd] in Hns, Hf. subst ans.
+        apply orb_true_iff. right. cbn [andb]. apply existsb_exists. exists (adecl_of f). split.
+        - unfold attrs_of. apply in_map. apply filter_In. split; [exact (proj1 (find_fld_in _ _ _ Hf))|rewrite He; reflexivity].
+        - cbn [a_name adecl_of]. rewrite (proj2 (find_fld_in _ _ _ Hf)). apply text_eqb_same. }
+      rewrite X1. cbn [andb]. unfold attrs_of. fold AF. rewrite forallb_map.
+      set (P := fun (f : fld) (v : text) => match fl_ty f with DLeaf st => simple_ok pat olex S (leaf_qn st) v | _ => true end).
+      rewrite (forallb_ext_in' _ (fun f => match lookup_att [] (fl_name f) atts with Some v => P f v | None => true end && occA f) AF).
+      2: { intros f Hf. destruct (HAF f Hf) as (_ & He & q & _ & _ & Hok). destruct (fld_attr_facts0 _ f Hok He) as ((st & Et & _) & Hr & _).
+           cbn [a_name a_type adecl_of]. unfold occA, P. rewrite Et, Hr. destruct (lookup_att [] (fl_name f) atts); [rewrite andb_true_r|]; reflexivity. }
+      rewrite forallb_and. f_equal.
+      rewrite <- (atts_reindex P AF atts HAFnd Hnda).
+      2: { intros a Ha. destruct (Hatt a Ha) as (Hns & f & Hf & He & _). split; [exact Hns|]. exists f. destruct (find_fld_in _ _ _ Hf) as [Hin Hn].
+           split; [unfold AF; apply filter_In; split; [exact Hin|rewrite He; reflexivity]|exact Hn]. }
+      apply forallb_ext_in'. intros a Ha. destruct (Hatt a Ha) as (Hns & f & Hf & He & st & Et & Hla).
+      destruct (find_fld_in _ _ _ Hf) as [Hin Hn].
+      assert (HfAF : In f AF) by (unfold AF; apply filter_In; split; [exact Hin|rewrite He; reflexivity]).
+      unfold att_name. rewrite <- Hn, (find_fld_nodup AF HAFnd f HfAF). unfold att_ok. rewrite <- Hn at 1. rewrite (find_fld_nodup F0 Hnd0 f Hin).
+      unfold P. rewrite Et. destruct (HAF f HfAF) as (_ & _ & q & Hq & Hqf & Hok).
+      destruct (L_flds_known U Hwf L Hkn q Hq) as (cl' & Hcl' & Hin' & _). rewrite Hqf in Hin'.
+      pose proof (fld_ok_ty _ _ Hok) as Hty. rewrite Et in Hty. cbn [dty_ok] in Hty.
+      assert (Hin_ty : In (DLeaf st) (tys_of U)).
+      { unfold tys_of. apply in_flat_map. exists cl'. split; [exact Hcl'|]. apply in_flat_map. exists f. split; [exact Hin'|]. rewrite Et. left. reflexivity. }
+      rewrite (simple_ok_leaf pat olex U S Hres st _ Hin_ty Hty).
+      rewrite <- (H_LA st (fl_nillable f) None (Some (snd a)) Hin_ty Hty Hla). destruct (snd a); reflexivity. }
+    (* (ii) the occurrence check of soft validation, member by member *)
+    assert (Hocc : occurs_ok F0 (rev (map att_name atts) ++ rev (map node_name kids))
+                   = forallb (fun p => occ_ok (fld_edecl U (snd p)) (count_text (fl_name (snd p)) (map node_name kids))) E
+                     && forallb occA AF).
+    { unfold occurs_ok. rewrite (forallb_split _ is_elem F0). fold AF. f_equal.
+      - assert (HEmap : filter is_elem F0 = map snd E).
+        { unfold F0, E, efields. clear. induction (L_flds L) as [|q r IHr]; [reflexivity|]. cbn [map filter]. destruct (is_elem (snd q)); cbn [map]; rewrite IHr; reflexivity. }
+        rewrite HEmap, forallb_map. apply forallb_ext_in'. intros p Hp.
+        rewrite count_text_app, !count_text_rev, (att_count atts _ Hnda Hattns), (Hlk_elem p Hp), occ_ok_fld. reflexivity.
+      - apply forallb_ext_in'. intros f Hf. destruct (HAF f Hf) as (_ & He & q & _ & _ & Hok).
+        destruct (fld_attr_facts0 _ f Hok He) as (_ & _ & Hm0 & Hmax & Hm1).
+        rewrite count_text_app, !count_text_rev, (att_count atts _ Hnda Hattns), (Hcnt_attr f Hf), Hmax. unfold occA.
+        destruct (lookup_att [] (fl_name f) atts); cbn [ext_leb]; lia. }
+    rewrite Hattrs. rewrite is_ok_bind.
+    destruct (forallb (att_ok F0) atts) eqn:EA.
+    - rewrite HA. unfold att_name in Hocc. rewrite Hocc. cbn [andb].
+      destruct (forallb _ E && forallb occA AF) eqn:EO; rewrite andb_comm in EO; rewrite EO; reflexivity.
+    - cbn [andb]. destruct (soft_atts ord F0 atts _) as [fr| |]; [discriminate HA|reflexivity|reflexivity].
   Qed.
 
 End Agree.
